@@ -481,6 +481,52 @@ pub fn directed(prop: Prop) -> Vec<Trace> {
                     }
                 }
             }
+            // Bounded-exhaustive partitions (the property's quantifier): every
+            // sequence of 0..=4 slice lengths (zero-length slices included)
+            // with total 0..=8, for an 8-byte tag header, the header crate's
+            // 8-byte header (u16 fields) and a 12-byte caller-defined header;
+            // the slices are separate buffers or adjacent pieces of one buffer
+            // in turn. 715 compositions per kind.
+            for kind in [DstKind::GenericTag, DstKind::GenericHeaderTag, DstKind::OddHeader] {
+                let mut n = 0u64;
+                for k in 0..=4usize {
+                    let mut lens = vec![0usize; k];
+                    loop {
+                        let total: usize = lens.iter().sum();
+                        if total <= 8 {
+                            let mut off = 0usize;
+                            let whole = pattern(total, 0x40 + kind as u8);
+                            let slices: Vec<Vec<u8>> = lens
+                                .iter()
+                                .map(|&l| {
+                                    let s = whole[off..off + l].to_vec();
+                                    off += l;
+                                    s
+                                })
+                                .collect();
+                            traces.push(vec![
+                                Op::new(OpKind::NewBoxed, vec![0, kind as u64, 0x0A0B_0C0D, 1, 0xFFFF_FFF0 + total as u64, n % 2], slices),
+                                Op::new(OpKind::CloneDyn, vec![1, 0], vec![]),
+                                Op::new(OpKind::DropObj, vec![0], vec![]),
+                            ]);
+                            n += 1;
+                        }
+                        // next length vector in 0..=8 per position
+                        let mut i = 0;
+                        while i < k {
+                            if lens[i] < 8 {
+                                lens[i] += 1;
+                                break;
+                            }
+                            lens[i] = 0;
+                            i += 1;
+                        }
+                        if i == k {
+                            break;
+                        }
+                    }
+                }
+            }
         }
         Prop::C07 => {
             for &c in ctor::C07_CTORS {
